@@ -160,11 +160,13 @@ package bt
 
 // ---- amounts, fees and change (C10, C11) ----
 //@ func bt.(*Tx).TotalInputSatoshis
+//@   opt defs sum_field
 //@   pure
 //@   requires (spec.inputs_nonnil tx)
 //@   ensures[C11.total_in] (= total (mod (spec.sum_in tx) 18446744073709551616))
 //@   loop 0 invariant (= total (mod (spec.sum_in_k tx (+ rangeindex 1)) 18446744073709551616))
 //@ func bt.(*Tx).TotalOutputSatoshis
+//@   opt defs sum_field
 //@   pure
 //@   requires (spec.outputs_nonnil tx)
 //@   ensures[C11.total_out] (= total (mod (spec.sum_out tx) 18446744073709551616))
@@ -188,6 +190,7 @@ package bt
 //@ func bt.(*Tx).change
 //@   bytes array
 //@   int-overflow check
+//@   lemma (=> (and (not (nil? output)) (. output newOutput) (not (nil? (. output lockingScript)))) (= changeBytes (spec.new_output_bytes (len (. output lockingScript)) (old (len (. tx Outputs))))))
 //@   requires (spec.inputs_nonnil tx) (spec.outputs_nonnil tx)
 //@   requires (< (spec.sum_in tx) 18446744073709551616) (< (spec.sum_out tx) 18446744073709551616) (<= 0 (spec.sum_in tx)) (<= 0 (spec.sum_out tx))
 //@   requires (=> (not (nil? f)) (spec.wf_quote f))
